@@ -758,6 +758,12 @@ class SampleObj(dict):
     def __ne__(self, other):
         return self is not other
 
+    def __getattr__(self, name):
+        # `'{arg.default}'.format(arg=arg)`: format fields read attributes off the sample object
+        if name.startswith("__") or name not in self:
+            raise AttributeError(name)
+        return self[name]
+
 
 class SampleElem(SampleObj):
     """A sample xml.etree Element: like the real one it is *falsy* when it has no child elements."""
@@ -1115,7 +1121,7 @@ def mini_exec(fn: ast.FunctionDef, args: Dict[str, object], budget: int = 2000, 
                 kw_ = {k.arg: ev(k.value) for k in e.keywords if k.arg}
                 try:
                     r_ = getattr(recv, e.func.attr)(*a_, **kw_)
-                except (TypeError, ValueError, IndexError, KeyError) as ex:
+                except (TypeError, ValueError, IndexError, KeyError, AttributeError) as ex:
                     raise _PathEval.Unknown(f"{e.func.attr}() on these samples: {ex}")
                 return list(r_) if e.func.attr in ("values", "keys", "items") else r_
         if isinstance(e, ast.JoinedStr):
@@ -1349,8 +1355,10 @@ def mini_exec(fn: ast.FunctionDef, args: Dict[str, object], budget: int = 2000, 
                 continue
             if isinstance(st, ast.Return):
                 raise _Return(ev(st.value) if st.value is not None else None)
-            if isinstance(st, ast.Assign) and len(st.targets) == 1:
-                bind(st.targets[0], ev(st.value))
+            if isinstance(st, ast.Assign):
+                v_ = ev(st.value)
+                for t_ in st.targets:              # `a = b = value` binds every target
+                    bind(t_, v_)
             elif isinstance(st, ast.AnnAssign) and st.value is not None:
                 bind(st.target, ev(st.value))
             elif isinstance(st, ast.AnnAssign):
@@ -1433,7 +1441,7 @@ def mini_exec(fn: ast.FunctionDef, args: Dict[str, object], budget: int = 2000, 
             elif isinstance(st, ast.Pass):
                 continue
             else:
-                raise _PathEval.Unknown(f"statement {type(st).__name__}")
+                raise _PathEval.Unknown(f"statement {type(st).__name__} `{unparse(st)[:60]}`")
     try:
         run(fn.body)
     except _Return as r:
